@@ -577,9 +577,10 @@ def main(check, argv=None):
                                                             canon(rec['case'])[:300], canon(rec['violation']['detail'])[:400]))
             nviol += 1
         inconclusive = []
+        confirmed_hangs = 0
         for hgn in total.hangs:
             part = [p for p in parts if p.name == hgn['part']][0]
-            if part.hang_is_violation:
+            if part.hang_is_violation and confirmed_hangs < 2:
                 try:
                     case = json.loads(hgn['case'])
                 except ValueError:
@@ -589,6 +590,7 @@ def main(check, argv=None):
                     vs, _ = _replay_guarded(check, parts, findings, part.name, case, allowance=60)
                     confirmed = any(v.kind == 'NO_RETURN' for v in vs)
                 if confirmed:
+                    confirmed_hangs += 1
                     rec = {'property': prop, 'part': part.name, 'case': case, 'seed': seed,
                            'violation': {'kind': 'NO_RETURN', 'detail': hgn, 'sig': None, 'bucket': 'NO_RETURN'}}
                     lines.append('VIOLATION property=%s replay=%s' % (prop, write_replay(prop, rec)))
